@@ -51,6 +51,10 @@ PY_HOSTILE_BODY = (
 )
 
 
+TARGETS = {"dotdot": [["other/../pkg/deep.py"], ["other/../pkg"], ["pkg/../pkg/more.ts", "other/../pkg/deep.py"]]}
+RAW_NAMES = [b"bad\xff.py", b"tr\xe2\x82unc.py", b"\xf0\x9f\x98.py", b"a\xc3.py"]
+
+
 def _projects():
     zoo, cfg, index = load.zoo_project()
     out = {}
@@ -66,6 +70,8 @@ def _projects():
     out["hostile-idents"] = ({"mod.py": PY_HOSTILE_BODY}, {"nesting": {"max_nesting_depth": 2}})
     out["syntax-error"] = ({"broken.py": "def f(:\n    pass\n", "broken.ts": "function ( {{{\n", "ok.py": "print(1)\n"}, {})
     out["hostile-names"] = ({n: "import os\nprint('x', 3601)\nclass A_Manager:\n    pass\n" for n in HOSTILE_NAMES}, {})
+    # a target spelled with an interior `..` segment (see TARGETS)
+    out["dotdot"] = ({"pkg/deep.py": PY_HOSTILE_BODY, "pkg/more.ts": "export function f(v: number) {\n  console.log(v);\n  return v * 3601;\n}\n", "other/keep.py": '"""ok."""\n'}, {"nesting": {"max_nesting_depth": 2}})
     out["hostile-dir"] = ({"d ir/sub ü/ไทย dir/m.py": "print('x', 3601)\n"}, {})
     return out
 
@@ -319,14 +325,15 @@ def run_item(item) -> Acc:
         for pname in item["projects"]:
             files, cfg = projs[pname]
             root = project({**files, ".thailint.yaml": yaml_dump(cfg)} if cfg else dict(files))
-            res = _run3(cmd, root, ["."], "inproc")
-            acc.case(3)
-            acc.edge(3)
-            acc.valid()
-            n = _check_three(acc, cmd, pname, res, "inproc")
-            acc.outcome((cmd, pname, n, res["json"]["exit_code"]))
-            if n:
-                acc.nt((cmd, pname))
+            for target in TARGETS.get(pname, [["."]]):
+                res = _run3(cmd, root, target, "inproc")
+                acc.case(3)
+                acc.edge(3)
+                acc.valid()
+                n = _check_three(acc, cmd, pname, res, "inproc")
+                acc.outcome((cmd, pname, n, res["json"]["exit_code"]))
+                if n:
+                    acc.nt((cmd, pname, tuple(target)))
             remove(root)
         acc.sample({"command": cmd, "projects": item["projects"], "formats": ["json", "text", "sarif"]})
     elif k == "formats-sub":
@@ -335,8 +342,9 @@ def run_item(item) -> Acc:
                 if pname == "surrogate":
                     root = project({"ok.py": "print('x', 3601)\n"})
                     try:
-                        with open(os.path.join(os.fsencode(str(root)), b"bad\xff.py"), "w") as fh:
-                            fh.write("print('x', 3601)\nclass A_Manager:\n    pass\n")
+                        for raw in RAW_NAMES:
+                            with open(os.path.join(os.fsencode(str(root)), raw), "w") as fh:
+                                fh.write("print('x', 3601)\nclass A_Manager:\n    pass\n")
                     except OSError:
                         remove(root)
                         continue
